@@ -127,4 +127,84 @@ func TestVerifScenario_C04_referrer_bundle(t *testing.T) {
 	fmt.Printf("SCENARIO-OK paid %s referrer received %s (commission %d%%)\n", paid, got, params.ReferralCommission)
 }
 
+// C05/C07: stateless validation must reject sizes that make block processing panic or usage negative.
+func TestVerifScenario_C05_postfile_sizes_unchecked(t *testing.T) {
+	_, _, _ = sSetup(t)
+	a := sAddr(1)
+	bad := [][2]int64{{0, 1}, {-5, 3}, {1, 0}, {1 << 40, 1 << 40}}
+	for _, c := range bad {
+		m := types.MsgPostFile{Creator: a.String(), Merkle: []byte("m"), FileSize: c[0], MaxProofs: c[1], ProofType: 0, Note: "{}"}
+		if err := m.ValidateBasic(); err == nil {
+			fmt.Printf("SCENARIO-VIOLATION MsgPostFile{FileSize: %d, MaxProofs: %d} passes ValidateBasic\n", c[0], c[1])
+			return
+		}
+	}
+	fmt.Println("SCENARIO-OK zero, negative and overflowing sizes are rejected by ValidateBasic")
+}
+
+// C05: a stored file of size 0 with one prover makes the reward block divide by zero inside BeginBlock.
+func TestVerifScenario_C05_reward_block_division_by_zero(t *testing.T) {
+	k, _, ctx := sSetup(t)
+	a, p := sAddr(1), sAddr(2)
+	f := types.UnifiedFile{Merkle: []byte("merkle"), Owner: a.String(), Start: 1, Expires: 0, FileSize: 0, ProofInterval: 100, MaxProofs: 3, Note: "{}"}
+	late := ctx.WithBlockHeight(k.GetParams(ctx).CheckWindow * 3)
+	f.AddProver(late.WithBlockHeight(late.BlockHeight()-1), k, p.String()) // proven one block before the reward block
+	defer func() {
+		if r := recover(); r != nil {
+			fmt.Printf("SCENARIO-VIOLATION RunRewardBlock panics with a stored file of size 0 and one prover: %v\n", r)
+		}
+	}()
+	k.RunRewardBlock(late)
+	fmt.Println("SCENARIO-OK reward block completed")
+}
+
+func sPlan(k *keeper.Keeper, ctx sdk.Context, a sdk.AccAddress, space int64) {
+	k.SetStoragePaymentInfo(ctx, types.StoragePaymentInfo{Start: ctx.BlockTime(), End: ctx.BlockTime().Add(time.Hour * 24 * 60), SpaceAvailable: space, SpaceUsed: 0, Address: a.String()})
+}
+
+// C07: deleting a plan-paid file must return its footprint to the plan.
+func TestVerifScenario_C07_delete_returns_space(t *testing.T) {
+	k, _, ctx := sSetup(t)
+	ms := keeper.NewMsgServerImpl(*k)
+	a := sAddr(1)
+	sPlan(k, ctx, a, 10_000_000_000)
+	if _, err := ms.PostFile(sdk.WrapSDKContext(ctx), &types.MsgPostFile{Creator: a.String(), Merkle: []byte("merkle-1"), FileSize: 1000, MaxProofs: 3, Note: "{}"}); err != nil {
+		fmt.Println("SCENARIO-ERROR post:", err)
+		return
+	}
+	p1, _ := k.GetStoragePaymentInfo(ctx, a.String())
+	if _, err := ms.DeleteFile(sdk.WrapSDKContext(ctx), &types.MsgDeleteFile{Creator: a.String(), Merkle: []byte("merkle-1"), Start: ctx.BlockHeight()}); err != nil {
+		fmt.Println("SCENARIO-ERROR delete:", err)
+		return
+	}
+	_, still := k.GetFile(ctx, []byte("merkle-1"), a.String(), ctx.BlockHeight())
+	p2, _ := k.GetStoragePaymentInfo(ctx, a.String())
+	if still || p2.SpaceUsed != 0 {
+		fmt.Printf("SCENARIO-VIOLATION after posting (used=%d) and deleting its only file the account still reports %d bytes used (file present: %v)\n", p1.SpaceUsed, p2.SpaceUsed, still)
+		return
+	}
+	fmt.Println("SCENARIO-OK footprint returned on delete")
+}
+
+// C07: re-posting the same (merkle, owner) in the same block must not count the footprint twice.
+func TestVerifScenario_C07_same_block_repost(t *testing.T) {
+	k, _, ctx := sSetup(t)
+	ms := keeper.NewMsgServerImpl(*k)
+	a := sAddr(1)
+	sPlan(k, ctx, a, 10_000_000_000)
+	for i := 0; i < 2; i++ {
+		if _, err := ms.PostFile(sdk.WrapSDKContext(ctx), &types.MsgPostFile{Creator: a.String(), Merkle: []byte("merkle-1"), FileSize: 1000, MaxProofs: 3, Note: "{}"}); err != nil {
+			fmt.Println("SCENARIO-ERROR post:", err)
+			return
+		}
+	}
+	n := len(k.GetAllFileByMerkle(ctx))
+	p, _ := k.GetStoragePaymentInfo(ctx, a.String())
+	if p.SpaceUsed != int64(n)*3000 {
+		fmt.Printf("SCENARIO-VIOLATION the account holds %d file(s) of footprint 3000 but reports %d bytes used\n", n, p.SpaceUsed)
+		return
+	}
+	fmt.Println("SCENARIO-OK usage equals footprint")
+}
+
 var _ = jkltypes.Bech32Prefix
